@@ -201,7 +201,7 @@ class FnTranslator:
             if isinstance(n.op, ast.Pow):
                 if isinstance(n.left, ast.Constant) and n.left.value in (2, 2.0):
                     self.oracles.add('exp2')
-                    return ('(exp2 %s)' % self.toQ(self.expr(n.right, env)), 'Q')
+                    return self.lift([self.expr(n.right, env)], lambda vs: ('(exp2 %s)' % self.toQ(vs[0]), 'Q'))   # 2 ** nan = nan
                 if isinstance(n.right, ast.Constant) and isinstance(n.right.value, int) and not isinstance(n.right.value, bool) \
                         and 2 <= n.right.value <= 8:
                     k = n.right.value
@@ -235,6 +235,11 @@ class FnTranslator:
                     return ('(%s %s %s)' % (f, x, y), 'Q')
                 return self.lift([a, b], arith)
             if isinstance(n.op, ast.Div):
+                # `/` is read as Qdiv, which is total (x / 0 = 0); Python raises ZeroDivisionError (scalars) or yields
+                # inf / nan (numpy) at a zero divisor: that case is OUTSIDE the translation and recorded as a guard
+                g = '(%s) == 0   [division]' % ast.unparse(n.right)
+                if not (isinstance(n.right, ast.Constant) and n.right.value not in (0, 0.0)) and g not in self.guards:
+                    self.guards.append(g)
                 return self.lift([a, b], lambda vs: ('(Qdiv %s %s)' % (self.toQ(vs[0]), self.toQ(vs[1])), 'Q'))
             if isinstance(n.op, ast.FloorDiv):
                 if a[1] == 'Z' and b[1] == 'Z':
@@ -1401,7 +1406,7 @@ class FnTranslator:
             stmts = stmts + [ast.Return(value=tup)]
         body = self.block(stmts, env, sp['ret'])
         params = ' '.join('(%s : %s)' % (c, COQTY[t]) for k, t, c in plist)
-        pre = ''.join('(* error path outside the translation: raises when  %s *)\n' % g for g in self.guards)
+        pre = ''.join('(* error path outside the translation: raises (or, for a division, yields inf / nan) when  %s *)\n' % g for g in self.guards)
         rty = sp['ret']
         rcoq = COQTY[rty] if isinstance(rty, str) else '(' + ' * '.join(COQTY[t] for t in rty) + ')%type'
         return pre + 'Definition %s %s : %s :=\n  %s.' % (sp['coq'], params, rcoq, body)
